@@ -1,6 +1,7 @@
 import AlgoVerif.Proofs.C02Chain
 import AlgoVerif.Proofs.C02OA
 import AlgoVerif.Proofs.C02LinDel
+import AlgoVerif.Model.C02Hash
 /-!
 # C02 — the hash tables behave as a map for any hash function, options and history
 
@@ -13,6 +14,12 @@ Quantified: the key type (with decidable equality), the value type, `eqVal`, the
 `hash : K → UInt64` (arbitrary), the shuffle `sh` and its generator state (any function returning
 permutations of `[0,n)`), valid options (what the constructor accepts, load-factor bounds default or
 tighter: `dmin ≤ minLF < maxLF ≤ dmax`), and the history.
+
+The last part of the file is about `hash/hash.go` (`Model/C02Hash.lean`): the library's default hash functions
+`HashFuncFor*(nil)` are modelled as pure functions — the FNV fold over the bytes each function writes — and
+the four table theorems are instantiated at the default string and int hash.  That the Go closures (which
+reuse a hasher and, for scalars, a buffer) really compute these pure functions on every call of a history is
+what the correspondence component `hashfn` checks on every run.
 
 Helper lemmas: `Proofs/C02Lists`, `C02Num`, `C02Sim` (generic refinement), `C02Chain`, `C02OA`, `C02Lin`,
 `C02LinDel` (the cluster re-insertion loop of linear probing's `Delete`).
@@ -59,6 +66,71 @@ theorem C02_double {K V σ : Type} [DecidableEq K] (hash : K → UInt64) (sh : S
     ⟨hinv, Spec.nodupKeys_nil, fun k v => by simp [hempty k v]⟩
   exact ⟨t0, hnew, sim (OA.correct hsh hash eqVal) ops ⟨t0, t0, g⟩ ⟨[], []⟩ (Or.inl trivial) hrel hrel⟩
 
+/-! ## the library's default hash functions (`hash/hash.go`) -/
+
+open AlgoVerif.C02.Hash in
+/-- the FNV fold: `Reset` gives the offset basis, every written byte is one `fnvStep` (FNV-1: multiply by the
+prime, then xor the byte — the variant `ensureHasher` installs), and writing `a` then `b` is writing `a ++ b` -/
+theorem C02_hash_fnv_fold (a b : Bytes) (c : UInt8) :
+    fnv [] = offset64 ∧ fnv (a ++ [c]) = fnvStep (fnv a) c ∧ fnv (a ++ b) = b.foldl fnvStep (fnv a) := by
+  refine ⟨rfl, ?_, ?_⟩ <;> simp [fnv, List.foldl_append]
+
+open AlgoVerif.C02.Hash in
+/-- every modelled `HashFuncFor<name>(nil)` is a function of the bytes it writes and of nothing else: two
+arguments with the same byte encoding hash to the same value, which is the FNV fold of those bytes.  (In the
+Model this holds by construction — the point of stating it is that the correspondence run compares every call
+of a history of the Go closures with `hashOf`.) -/
+theorem C02_hash_bytes_only (name : String) (x y : Arg) (bs : Bytes)
+    (hx : encode name x = some bs) (hy : encode name y = some bs) :
+    hashOf name x = hashOf name y ∧ hashOf name x = some (fnv bs) := by
+  simp [hashOf, hx, hy]
+
+open AlgoVerif.C02.Hash AlgoVerif.Generated in
+/-- the empty string (and every empty slice) hashes to the offset basis — on every call; the integer 0 hashes to
+the fold of eight zero bytes; and the Model covers exactly the `HashFuncFor*` constructors found in the source
+(`hash_funcNames` is regenerated from hash/hash.go) -/
+theorem C02_hash_zero_keys_and_coverage :
+    forString [] = offset64 ∧ offset64 = 14695981039346656037 ∧ forStringSlice [] = offset64 ∧ forIntSlice [] = offset64 ∧
+    forInt 0 = fnv [0, 0, 0, 0, 0, 0, 0, 0] ∧ forInt 0 ≠ forString [] ∧
+    (∀ n ∈ hash_funcNames, n ∈ families.map Prod.fst) ∧ (∀ n ∈ families.map Prod.fst, n ∈ hash_funcNames) := by
+  decide
+
+open AlgoVerif.C02.Hash in
+/-- C02 for tables keyed by strings under the library's default string hash `hash.HashFuncForString(nil)`
+(`grammar.HashNonTerminal`, `HashTerminal`, …): instances of the four theorems -/
+theorem C02_default_string_hash {V σ : Type} (sh : Shuffle σ) (hsh : ShufflePerm sh) (eqVal : V → V → Bool) (g : σ)
+    (ops : List (Op Bytes V)) :
+    (∀ opts, Chain.ValidOpts opts → ∃ t0 : ChainTable Bytes V, Chain.new opts = .ok t0 ∧
+      Agree (run (Chain.impl sh forString eqVal) ⟨t0, t0, g⟩ ops) (Spec.run eqVal ⟨[], []⟩ ops)) ∧
+    (∀ opts, Lin.ValidOpts opts → ∃ t0 : LinTable Bytes V, Lin.new opts = .ok t0 ∧
+      Agree (run (Lin.impl sh forString eqVal) ⟨t0, t0, g⟩ ops) (Spec.run eqVal ⟨[], []⟩ ops)) ∧
+    (∀ opts, OA.ValidOpts .quad opts → ∃ t0 : OATable Bytes V, OA.new .quad opts = .ok t0 ∧
+      Agree (run (OA.impl sh forString eqVal) ⟨t0, t0, g⟩ ops) (Spec.run eqVal ⟨[], []⟩ ops)) ∧
+    (∀ opts, OA.ValidOpts .dbl opts → ∃ t0 : OATable Bytes V, OA.new .dbl opts = .ok t0 ∧
+      Agree (run (OA.impl sh forString eqVal) ⟨t0, t0, g⟩ ops) (Spec.run eqVal ⟨[], []⟩ ops)) :=
+  ⟨fun opts hv => C02_chain forString sh hsh eqVal opts hv g ops,
+   fun opts hv => C02_linear forString sh hsh eqVal opts hv g ops,
+   fun opts hv => C02_quadratic forString sh hsh eqVal opts hv g ops,
+   fun opts hv => C02_double forString sh hsh eqVal opts hv g ops⟩
+
+open AlgoVerif.C02.Hash in
+/-- C02 for tables keyed by Go `int`s under the library's default int hash `hash.HashFuncForInt(nil)`
+(`lr.HashState`, …) -/
+theorem C02_default_int_hash {V σ : Type} (sh : Shuffle σ) (hsh : ShufflePerm sh) (eqVal : V → V → Bool) (g : σ)
+    (ops : List (Op Int V)) :
+    (∀ opts, Chain.ValidOpts opts → ∃ t0 : ChainTable Int V, Chain.new opts = .ok t0 ∧
+      Agree (run (Chain.impl sh forInt eqVal) ⟨t0, t0, g⟩ ops) (Spec.run eqVal ⟨[], []⟩ ops)) ∧
+    (∀ opts, Lin.ValidOpts opts → ∃ t0 : LinTable Int V, Lin.new opts = .ok t0 ∧
+      Agree (run (Lin.impl sh forInt eqVal) ⟨t0, t0, g⟩ ops) (Spec.run eqVal ⟨[], []⟩ ops)) ∧
+    (∀ opts, OA.ValidOpts .quad opts → ∃ t0 : OATable Int V, OA.new .quad opts = .ok t0 ∧
+      Agree (run (OA.impl sh forInt eqVal) ⟨t0, t0, g⟩ ops) (Spec.run eqVal ⟨[], []⟩ ops)) ∧
+    (∀ opts, OA.ValidOpts .dbl opts → ∃ t0 : OATable Int V, OA.new .dbl opts = .ok t0 ∧
+      Agree (run (OA.impl sh forInt eqVal) ⟨t0, t0, g⟩ ops) (Spec.run eqVal ⟨[], []⟩ ops)) :=
+  ⟨fun opts hv => C02_chain forInt sh hsh eqVal opts hv g ops,
+   fun opts hv => C02_linear forInt sh hsh eqVal opts hv g ops,
+   fun opts hv => C02_quadratic forInt sh hsh eqVal opts hv g ops,
+   fun opts hv => C02_double forInt sh hsh eqVal opts hv g ops⟩
+
 /-! ## the hypotheses are satisfiable, on non-trivial states -/
 section NonVacuity
 
@@ -91,6 +163,25 @@ example : (match (OA.new .quad {} : Outcome (OATable Int Int)) with
         [.put false 1 10, .put false 2 20, .delete false 1, .put false 1 11, .size false, .get false 1]
     | _ => []) =
     [.ok .unit, .ok .unit, .ok (.val (some 10)), .ok .unit, .ok (.int 2), .ok (.val (some 11))] := by
+  decide
+
+open AlgoVerif.C02.Hash in
+/-- the encodings are not all alike: "a" and "b" differ, `[1]` as `[]int8` is one byte and as `[]int` 24 bytes
+(the `unsafe.Sizeof` quirk), −1 is sign-extended; `"ab","c"` and `"a","bc"` are written as the same bytes -/
+example : encode "String" (.bytes [97]) ≠ encode "String" (.bytes [98]) ∧
+    (encode "Int8Slice" (.ints [1])).map List.length = some 1 ∧ (encode "IntSlice" (.ints [1])).map List.length = some 24 ∧
+    encode "Int16" (.int (-1)) = some [255, 255] ∧ encode "Bool" (.int 1) = none ∧
+    encode "StringSlice" (.strs [[97, 98], [99]]) = encode "StringSlice" (.strs [[97], [98, 99]]) := by
+  decide
+
+open AlgoVerif.C02.Hash in
+/-- the witness history of the seeded change C02-n2 on the Model: the empty string is the first key the default
+string hash ever sees; it is found again after other keys have been hashed, and the count is right. -/
+example : (match (OA.new .quad {} : Outcome (OATable Bytes Int)) with
+    | .ok t0 => run (OA.impl idShuffle forString (fun a b => a == b)) ⟨t0, t0, ()⟩
+        [.put false [] 1, .put false [97] 2, .get false [], .put false [] 3, .size false, .get false []]
+    | _ => []) =
+    [.ok .unit, .ok .unit, .ok (.val (some 1)), .ok .unit, .ok (.int 2), .ok (.val (some 3))] := by
   decide
 
 end NonVacuity
